@@ -20,7 +20,8 @@ FLOORS = {"quick": {"builds_compared": 1200, "template_unchanged_checks": 1200, 
           "thorough": {"builds_compared": 8000}}
 WEIGHTS = {"sample": 0, "str": 0, "to_abstract_repr": 0, "build_copy": 0, "queries": 0, "get_duration": 0,
            "estimate_added_delay": 0, "is_in_eom_mode": 0, "current_phase_ref": 0, "measure": 0.15,
-           "target_index": 1.5, "phase_shift_index": 1.0, "set_magnetic_field": 0.05, "config_slm_mask": 0.5}
+           "target_index": 1.5, "phase_shift_index": 1.0, "set_magnetic_field": 0.05, "config_slm_mask": 0.5,
+           "enable_eom_mode": 2.0, "disable_eom_mode": 1.6, "add_eom_pulse": 4.0}
 
 
 def concrete_program(ctx, rng, dev, reg, nmax=26, weights=None, styles=False, maps_by_traps=False, motifs=None):
@@ -29,6 +30,7 @@ def concrete_program(ctx, rng, dev, reg, nmax=26, weights=None, styles=False, ma
     g = gen.ProgGen(rng, dev, reg, r.chspecs, weights=weights or WEIGHTS, styles=styles)
     g.maps_by_traps = maps_by_traps
     g.motifs.update(motifs or {})
+    g.cpd_given = 0.8
     ops = []
     for _ in range(rng.randint(5, nmax)):
         op = g.next_op()
